@@ -143,15 +143,17 @@ def execute(c):
                 if len(blocks) == ngrid + 1:
                     c["pats"] = [pt[b[-1]] for b in blocks[:ngrid]]
                     c["hints"] = [pt[i] for i in blocks[-1][:-1]]
-            elif c["variant"] == "wcvp":
-                # the asymmetric passes are the trailing block at lambda = lopt after the GCV sweep
-                j = len(lams) - 1
-                while j > 0 and lams[j - 1] == lams[-1]:
+            elif c["variant"] == "wcvp" and not c.get("robust"):
+                # the asymmetric passes: trailing calls at lambda = lopt whose non-zero weights are p / 1-p
+                def asym(ix):
+                    ww = np.asarray(calls[ix][0][2], dtype="float64")
+                    nz = ww[ww != 0]
+                    return lams[ix] == lams[-1] and bool(np.all((np.abs(nz - float(p)) < 1e-12) | (np.abs(nz - (1 - float(p))) < 1e-12)))
+                j = len(lams)
+                while j > 0 and asym(j - 1) and len(lams) - j < 11:
                     j -= 1
-                # the sweep itself may end with the same lambda: the final block has at most 11 calls
-                blk = list(range(max(j, len(lams) - 11), len(lams)))
-                # keep only the calls whose weights are asymmetric (contain p or 1-p pattern); robust weights excluded
-                c["hints"] = [pt[i] for i in blk[:-1]] if not c.get("robust") else []
+                pt = patterns_of(calls, y, p, resets=(0, j))
+                c["hints"] = [pt[i] for i in range(j, len(lams) - 1)]
     return c
 
 
@@ -188,7 +190,7 @@ def run_accessor(c, args):
 
 
 def tla_case(c):
-    keys = ("tid", "op", "variant", "swept", "y", "nd", "lam", "grid", "lc", "hasp", "p", "robust", "out", "lopt", "pats", "hints", "hinted", "sg", "sgonly")
+    keys = ("tid", "op", "variant", "swept", "fam", "level", "height", "line", "y", "nd", "lam", "grid", "lc", "hasp", "p", "robust", "out", "lopt", "pats", "hints", "hinted", "sg", "sgonly")
     d = {k: c[k] for k in keys if k in c}
     d.setdefault("lam", "0")
     d.setdefault("swept", [])
